@@ -425,8 +425,24 @@ def r4(ctx, fs):
     for n in f.nodes():
         if n.get('k') == 'CXXForRangeStmt' and canon(n['slots']['range'], env, subst=False) == ('[]', LRA + 't_watches', 'x_j'):
             cvar = n['slots']['var'].get('name')
-            ifs = [m for m in walk(n['slots']['body']) if m.get('k') == 'IfStmt']
-            guard_ok = bool(ifs) and canon(ifs[0]['slots']['cond'], env, subst=False) == ('!=', ) + tuple(sorted((('.', cvar, 'x'), 'x_i'), key=repr))
+            # decided on the paths of the loop body: the value of a watching row is moved exactly on the paths that have seen `c->x == x_i` fail (wrapping if
+            # or early continue)
+            from ..tables import norm_literal
+            LEAVING = ('==', ) + tuple(sorted((('.', cvar, 'x'), 'x_i'), key=repr))
+            guard_ok, moved = True, False
+            for p in enum_paths(n['slots']['body']):
+                lv = None
+                for c in p.conds:
+                    if c[0] == 'if':
+                        t, pol = norm_literal(canon(c[1], env, subst=False), c[2])
+                        if t == LEAVING:
+                            lv = pol
+                has = any(m.get('k') == 'CXXOperatorCallExpr' and m.get('op') == '+=' and canon(m, env, subst=False)[1] == ('[]', LRA + 'vals', ('.', cvar, 'x')) for st in p.stmts for m in walk(st))
+                if has:
+                    moved = True
+                    if lv is not False:
+                        guard_ok = False
+            guard_ok = guard_ok and moved
     AT = lambda row, x: ('mcall', 'std::map<const unsigned long, smt::rational>::at', ('.', ('.', row, 'l'), 'vars'), x)
     theta = env.init_of('theta')
     want_theta = ('/', ('-', 'v', V('x_i')), AT(('mcall', 'std::map<const unsigned long, smt::row *>::at', LRA + 'tableau', 'x_i'), 'x_j'))
